@@ -437,6 +437,9 @@ def finish(prop, tier, seed, level, t0, cases, coverage, assumptions, builder=No
     inconclusive = []
     n_ok = 0
     cases = [c for c in cases if not c.skipped]
+    slow = sorted([c for c in cases if getattr(c, "wall", None)], key=lambda c: -c.wall)[:4]
+    if slow and slow[0].wall > 20:
+        log("slowest cases: " + "; ".join("%s %.0fs" % (c.tag, c.wall) for c in slow))
     for c in cases:
         st, key, detail = classify(c)
         if st == "ok":
